@@ -224,11 +224,12 @@ func slotMustDepend(c *Ctx, s versionSlot, comp string) bool {
 }
 
 func checkC15(c *Ctx, r *Report) {
-	r.Rules = []string{"F14 file name and metadata state the same identity components", "F14 architecture after the same translation, stated plainly", "file name ends in the conventional extension", "W3 file-name side effects are idempotent", "CLI target resolution", "CLI packager inference", "F14-same-expr the same expression on both sides (rpm, apk, archlinux release)", "CLI working directory unchanged while the target is resolved", "same-F13-plain the control template's Version line applies no helper the file name does not (imported from C14)", "F14-name-fixpoint a sanitiser applied to the name in the file name is what Package validates the name with", "same-D8-packager-store (imported from C14)"}
+	r.Rules = []string{"F14 file name and metadata state the same identity components", "F14 architecture after the same translation, stated plainly", "file name ends in the conventional extension", "W3 file-name side effects are idempotent", "CLI target resolution", "CLI packager inference", "F14-same-expr the same expression on both sides (rpm, apk, archlinux release)", "CLI working directory unchanged while the target is resolved", "same-F13-plain the control template's Version line applies no helper the file name does not (imported from C14)", "F14-name-fixpoint a sanitiser applied to the name in the file name is what Package validates the name with", "same-D8-packager-store (imported from C14)", "CLI-name-info the command names the file after the settings it packages"}
 	r.Explanation = "Agreement and structure rules over go/ssa and the parsed templates. (F14) per packager and per identity component (name, version, prerelease, version metadata, release, architecture) the conventional file name depends on the component on every live path (abstract evaluation with the component fixed non-empty, intersection of provenance at joins) exactly when the inner metadata states it (control template rows / rpm metadata fields / .PKGINFO keys, the same way); both ConventionalFileName and Package apply the same architecture translation before anything reads the architecture, and the metadata's architecture derives from the translated architecture alone; the file name's format ends in the packager's ConventionalExtension constant; the writes ConventionalFileName performs on the Info are idempotent (C11-W3). (CLI) in doPackage the path handed to os.Create is the phi of the given target, the conventional name (on the target-empty edge) and path.Join(target, conventional name) (on the is-a-directory edge); Info.Target receives the same value; the packager is taken from the target's extension only on the packager-empty edge."
 	r.Explanation += " (F14-same-expr) rpm: name, version, release and architecture in the file name are the expressions written to the metadata; apk: the template's pkgver function; archlinux: the release expression. The command changes the working directory nowhere on its packaging path."
 	r.Explanation += " (same-F13-plain) imported from C14: a helper applied to a version component on the template's Version line only makes file name and metadata disagree."
 	r.Explanation += " (F14-name-fixpoint) for every string function of the packager that the file name applies to the configured name, Package's call graph compares that function's result with its argument (so names it would change are rejected)."
+	r.Explanation += " (CLI-name-info) every ConventionalFileName call on the command's call graph is given the value Package is given (helper parameters resolved to their single call site)."
 	r.Assumptions = []string{"concrete strings are not computed; 'depends on' is provenance, not equality of rendered text"}
 	for _, pk := range c.Packagers {
 		if pk.Format == "" {
@@ -329,6 +330,7 @@ func checkCLITarget(c *Ctx, r *Report) {
 		r.Unresolved("internal/cmd.doPackage", "not found")
 		return
 	}
+	checkCLINameInfo(c, r, dp)
 	var create *ssa.Call
 	forEachInstr(dp, func(in ssa.Instruction) {
 		if call, ok := in.(*ssa.Call); ok && calleeIs(call, "os", "", "Create") {
@@ -833,4 +835,61 @@ func checkSanitisedNameAgrees(c *Ctx, r *Report) {
 		}
 	}
 	r.Count("file_name_sanitisers", n)
+}
+
+// checkCLINameInfo (CLI-name-info): the command names the file after the
+// settings it packages: the Info handed to ConventionalFileName is the one
+// handed to Package (the result of Config.Get for the chosen packager), not a
+// copy of the base settings taken beforehand.
+func checkCLINameInfo(c *Ctx, r *Report, dp *ssa.Function) {
+	pa := newProv(c)
+	up := func(v ssa.Value, fn *ssa.Function) ssa.Value {
+		for d := 0; d < 3; d++ {
+			prm, ok := v.(*ssa.Parameter)
+			if !ok || fn == dp {
+				return v
+			}
+			idx := -1
+			for i, q := range fn.Params {
+				if q == prm {
+					idx = i
+				}
+			}
+			sites := pa.callSites(fn)
+			if idx < 0 || len(sites) != 1 || idx >= len(sites[0].Common().Args) {
+				return v
+			}
+			v, fn = sites[0].Common().Args[idx], sites[0].Parent()
+		}
+		return v
+	}
+	var names []ssa.Value
+	var nameAt []ssa.Instruction
+	var pkgInfo ssa.Value
+	for _, fn := range sortedFuncs(c, c.Reach(dp)) {
+		if c.funcPkgPath(fn) != c.funcPkgPath(dp) {
+			continue
+		}
+		forEachInstr(fn, func(in ssa.Instruction) {
+			call, ok := in.(*ssa.Call)
+			if !ok || !call.Call.IsInvoke() || len(call.Call.Args) == 0 {
+				return
+			}
+			switch call.Call.Method.Name() {
+			case "ConventionalFileName":
+				names = append(names, up(call.Call.Args[0], fn))
+				nameAt = append(nameAt, in)
+			case "Package":
+				pkgInfo = up(call.Call.Args[0], fn)
+			}
+		})
+	}
+	if pkgInfo == nil || len(names) == 0 {
+		r.Unresolved("internal/cmd.doPackage", "the calls of ConventionalFileName and Package were not both found")
+		return
+	}
+	for i, nv := range names {
+		r.Check(nv == pkgInfo || sameValue(nv, pkgInfo), "CLI-name-info", fmt.Sprintf("the command names the file after the settings it packages (name call#%d)", i+1), c.instrPos(nameAt[i]),
+			fmt.Sprintf("ConventionalFileName is given %s, Package %s: overrides and defaults applied to one of them only make the file name state another architecture or version than the package", shorten(valueExpr(c, nv, 0), 60), shorten(valueExpr(c, pkgInfo, 0), 60)))
+	}
 }
